@@ -421,7 +421,12 @@ class DAGRunConcurrentManager(DAGRunManagerLike):
         Get the node's dependencies
         """
 
-        node_predecessors = set(self.dag.graph.predecessors(node_id))
+        # Case branches are not dependencies of a switch node: only the selected one is needed, and it is
+        # executed by the switch itself after the switch node has been resolved.
+        node_predecessors = {
+            pred_node_id for pred_node_id in self.dag.graph.predecessors(node_id)
+            if not self.dag.graph.edges[pred_node_id, node_id].get(EdgeField.case_branch)
+        }
         current_dag = set(nx.topological_sort(dag))
 
         return current_dag.intersection(node_predecessors)
